@@ -2,10 +2,10 @@
    directives for bool, option, unit, list, prod, sumbool, sumor); N / Z / nat stay Coq datatypes.
    One self-contained .ml per model so that names never clash. *)
 From Coq Require Import Extraction ExtrOcamlBasic.
-From Acts.Model Require Import StoreQ Engine Tree Oracles Retry Script Chan Serde Multi Limit.
+From Acts.Model Require Import StoreQ Engine Tree Oracles Retry Script Chan Serde Multi Limit Class.
 Extraction Language OCaml.
 Extraction "m_storeq.ml" StoreQ.srun StoreQ.run_query.
-Extraction "m_engine.ml" Engine.run Engine.apply_op Engine.drain Engine.start Engine.do_action Engine.do_tick Engine.sched_pick Engine.step_queue Engine.states Engine.kind Engine.tnode GenState.to_mstate GenState.is_completed Tree.build_tree Tree.build_model Tree.dmodel_of Serde.dstep Serde.dinit Oracles.check Oracles.observe Oracles.ops_codes Oracles.hook_tids Oracles.tmo_nids_of Limit.parse_limit Limit.limit_ms Limit.as_secs Limit.fits_i64.
+Extraction "m_engine.ml" Engine.run Engine.apply_op Engine.drain Engine.start Engine.do_action Engine.do_tick Engine.sched_pick Engine.step_queue Engine.states Engine.kind Engine.tnode GenState.to_mstate GenState.is_completed Tree.build_tree Tree.build_model Tree.dmodel_of Serde.dstep Serde.dinit Oracles.check Oracles.observe Oracles.ops_codes Oracles.hook_tids Oracles.tmo_nids_of Limit.parse_limit Limit.limit_ms Limit.as_secs Limit.fits_i64 Class.frag_nodes Class.frag_op.
 Extraction "m_retry.ml" Retry.rrun Retry.rstep Retry.rinit.
 Extraction "m_script.ml" Script.fill_string Script.get_expr Script.to_js Script.of_js.
 Extraction "m_chan.ml" Chan.crun Chan.cstep Chan.glob Chan.hub0 Chan.hstep Chan.hrun.
